@@ -14,7 +14,7 @@ import subprocess
 import tempfile
 import time
 
-from common import real_env, PY, SCRATCH_ROOT, lean_driver
+from common import real_env, PY, SCRATCH_ROOT, lean_driver, run_worker
 
 LEVEL = 'proof'
 
@@ -155,9 +155,102 @@ def compare(target, opts, pargs, r):
     return viol, known
 
 
+# ------------------------------------------------------------------------------------------------- K07t: the -i timer under thread schedules
+def timer_schedules(rng, n):
+    out = [['main', 'main'], ['main', 'fire', 'run 0', 'main', 'run 0', 'run 0'], ['main', 'fire', 'main', 'run 0', 'run 0', 'run 0'],
+           ['main', 'fire', 'run 0', 'run 0', 'main', 'run 0'], ['main', 'fire', 'run 0', 'run 0', 'fire', 'run 1', 'main', 'run 1', 'run 0', 'run 1']]
+    for i in range(n):
+        r = rng.fork('t%d' % i)
+        sched = ['main'] if r.chance(4, 5) else []
+        for _ in range(r.below(14) + 2):
+            k = r.below(10)
+            sched.append('main' if k < 2 else 'fire' if k < 5 else 'fireLeaked' if k < 6 else 'run %d' % r.below(3))
+        out.append(sched)
+    return out
+
+
+def timer_model_states(program, sched):
+    """state lines of the Lean model for one schedule, rewritten to the worker's form (remaining counts -> source lines)"""
+    main_lines = [i['line'] for i in program['ctor'] + program['stop']]
+    run_lines = [i['line'] for i in program['run']]
+    out = []
+    for ln in lean_driver('timer', ['reset'] + sched):
+        f = dict(x.split('=', 1) for x in ln.split())
+        m = int(f['main'])
+        rs = [int(x) for x in f['runs'].split(',') if x != '']
+        out.append('r=%s s=%s cur=%s leaked=%s dumps=%s mainline=%d runlines=%s' % (
+            f['r'], f['s'], f['cur'], f['leaked'], f['dumps'], main_lines[len(main_lines) - m] if m else 0,
+            ','.join(str(run_lines[len(run_lines) - a] if a else 0) for a in rs)))
+    return out
+
+
+def timer_check(ctx, build):
+    import extract
+    program = extract.timer_program()
+    nrand = 120 if ctx.quick else 1500
+    depth = 7 if ctx.quick else 10
+    if ctx.broken:
+        nrand, depth = nrand * 4, depth + 2
+    scheds = timer_schedules(ctx.rng.fork('timer'), nrand)
+    nw = 6
+    parts = [{'program': program, 'schedules': scheds[i::nw], 'enumerate': 0} for i in range(nw)]
+    parts.append({'program': program, 'schedules': [], 'enumerate': depth, 'limit': 3000 if ctx.quick else 60000})
+    with cf.ThreadPoolExecutor(max_workers=nw + 1) as ex:
+        outs = list(ex.map(lambda p: run_worker(build, 'c07_timer_worker.py', p, 3000), parts))
+    results = [r for o in outs for r in o['results']]
+    ctx.log('%d schedules of the real RepeatedTimer (%d enumerated up to depth %d)' % (len(results), len(outs[-1]['results']), depth))
+    kdiff = 0
+    stats = {'schedules': len(results), 'enumerated': len(outs[-1]['results']), 'stop_while_run_in_flight': 0, 'max_threads': 0, 'live_after_stop': 0}
+    model_ok = getattr(ctx, 'driver_ok', True)
+    # the model on all schedules in one driver call per chunk
+    for r in results:
+        if 'error' in r:
+            ctx.broken.append(('harness (timer)', str(r['error'])[-800:] + ' schedule=%s' % r.get('schedule')))
+            continue
+        d = r['drained']
+        nthreads = len(r['states'][-1].split('runlines=')[1].split(',')) if r['states'][-1].split('runlines=')[1] else 0
+        stats['max_threads'] = max(stats['max_threads'], nthreads)
+        if any('mainline=0' in s and any(x not in ('', '0') for x in s.split('runlines=')[1].split(',')) for s in r['states']):
+            stats['stop_while_run_in_flight'] += 1
+        bad = None
+        if d['live_timers_after_stop']:
+            bad = {'live_timers_after_stop_returned': d['live_timers_after_stop']}
+            stats['live_after_stop'] += 1
+        elif d['errors']:
+            bad = {'exception_in_thread': d['errors']}
+        elif not d['settled']:
+            bad = {'threads_did_not_finish': True}
+        if bad:
+            ctx.fail('with -i: after stop() returned a timer is still live (kernprof would rewrite the file forever and never terminate)',
+                     {'finding_class': None, 'schedule': r['schedule'], 'difference': bad, 'states': r['states'][-4:]})
+    if model_ok:
+        chunks = [results[i::8] for i in range(8)]
+
+        def one(chunk):
+            n = 0
+            for r in chunk:
+                if 'error' in r:
+                    continue
+                ms = timer_model_states(program, r['schedule'])
+                if ms != r['states']:
+                    n += 1
+                    k = next((i for i, (a, b) in enumerate(zip(ms, r['states'])) if a != b), min(len(ms), len(r['states'])))
+                    r['kdiff'] = 'schedule %s: after %d choices model %r real %r' % (r['schedule'], k, ms[k:k + 1], r['states'][k:k + 1])
+            return n
+        with cf.ThreadPoolExecutor(max_workers=8) as ex:
+            kdiff = sum(ex.map(one, chunks))
+        for r in results:
+            if 'kdiff' in r:
+                ctx.broken.append(('K07t correspondence', r['kdiff']))
+                break
+    stats['correspondence_disagreements'] = kdiff
+    return stats
+
+
 def run(ctx):
-    ctx.prove('LPVerif.Props.C07', 'LPVerif/Props/C07.lean', drivers=('Skel',))
+    ctx.prove('LPVerif.Props.C07', 'LPVerif/Props/C07.lean', drivers=('Skel', 'Timer'))
     build = ctx.build()
+    tstats = timer_check(ctx, build)
     combos = [(t, o, p) for t in TARGETS for o in OPTSETS for p in PROG_ARGS]
     if ctx.quick:
         base = [(t, o, PROG_ARGS[(i + j) % 3]) for i, t in enumerate(TARGETS) for j, o in enumerate(OPTSETS) if (i + j) % 3 == 0 or o in (['-l', '-i', '5'], ['-l', '-s', 'setup_file.py'])]
@@ -184,13 +277,17 @@ def run(ctx):
         'evaluations': len(combos), 'distinct_nontrivial': len(nontrivial),
         'rule': '7 placements (relative, sub-directory, absolute, on PATH, -m module, -m package, -m package.module) + a program dying from an uncaught exception, x 16 option sets '
                 '(-l -b -v -z -u -i -o -s -p --prof-imports -r) x 3 program-argument lists (sampled in quick); each run twice (python, kernprof) in fresh processes',
-        'traces_validated_against_impl': len(combos), 'target_distribution': dist})
+        'traces_validated_against_impl': len(combos) + tstats['schedules'] - tstats['correspondence_disagreements'], 'target_distribution': dist,
+        'timer_schedules': tstats})
     ctx.coverage['samples'].append({'target': combos[-1][0][0], 'options': combos[-1][1], 'program_args': combos[-1][2],
                                     'kernprof_stdout_tail': res[-1]['kp']['out'][-300:], 'latency': [round(res[-1]['py']['t'], 2), round(res[-1]['kp']['t'], 2)]})
-    ctx.assumptions += ['stdout / stderr content and exit latency are runtime behaviour: compared on sampled option sets, not proved',
+    ctx.assumptions += ['the -i timer: statement-level atomicity (the interpreter switches threads between, not inside, the simple statements of RepeatedTimer); '
+                        'threading.Timer fires at most once and never after cancel(); K07t drives the real class through schedules with a trace-function scheduler',
+                        'stdout / stderr content and exit latency are runtime behaviour: compared on sampled option sets, not proved',
                         'F-C07b (known): in -m mode sys.argv[0] is the module name (python: the file path); pinned by tests/test_kernprof.py::test_kernprof_m_parsing',
                         'module attributes such as __package__/__spec__ of the exec namespace are C08\'s finding F-C08d, not compared here']
     return ctx.finish('Lean: env_equiv on the set-up model, timers_stopped / setup_once_first_unprofiled over the dumped skeletons, findScript_spec; '
+                      'timer_quiet_after_stop / timer_never_two / after_stop_winds_down for every schedule of the RepeatedTimer program read from the tree (K07t); '
                       'K07: python vs kernprof differential in fresh processes')
 
 
